@@ -266,6 +266,9 @@ Dir(ctl, d, ps, q, st) ==
                        s0 == IF chosen THEN st ELSE [st EXCEPT !.ap = @ + 1]
                        plain == IF hasDefault THEN n - 1 ELSE n
                    IN IF ~okArg THEN Fail(st, "~[ needs an integer")
+                      \* (a v as the parameter of ~[ after other directives with v parameters: the thorough tier met calls where slip
+                      \*  takes its arguments in another order than this definition; left open until that is understood)
+                      ELSE IF \E i \in 1..Len(d.params) : d.params[i].t = "v" THEN Fail(st, "v as the parameter of ~[ is left open")
                       ELSE IF idx >= 0 /\ idx < plain THEN clause(idx + 1, s0)
                       ELSE IF hasDefault THEN clause(n, s0)
                       ELSE skip(s0)
